@@ -4,7 +4,7 @@ import vfx
 from props import common
 
 RULE = ("every string over the alphabet {'/', '.', 'a', U+00E9} up to the length bound, joined onto each of "
-        "the bases {root, /a, /a/b.c, /é/.x, /abc/d, /ab/cde/f, /é日/x} (component lengths rising and falling, multi-byte), observed through as_str, parent, filename, extension, is_root; "
+        "the bases {root, /a, /a/b.c, /é/.x, /abc/d, /ab/cde/f, /é日/x} (component lengths rising and falling, multi-byte), observed through as_str, parent, filename, extension, is_root; root() inside chains; "
         "plus random longer arguments and chains; every observation also through AsyncVfsPath (its join is a separate function); a case is non-trivial if the argument has >= 2 characters and "
         "distinct by (base, argument); equality (==) between every pair of spellings of paths on every pair of seven instances "
         "(two MemoryFS, two altroots, three instances of a stateless zero-sized user filesystem), sync and async")
@@ -48,7 +48,16 @@ def corpus():
     for arg in ["ä/" * 100, "ä/" * 130 + "x", "/" + "日" * 90 + "/", "x" * 300, ("ab/" * 100) + ".."]:
         for b in ["", "a/b.c"]:
             add_ops(c2, b, arg)
-    return [c, c2] + eq_cases()
+    c3 = vfx.Case("c06root")
+    c3.base("mem")
+    c3.fs("base", 0)
+    for b in ["", "a", "a/b.c", "é日/x", "ab/cde/f"]:
+        for tail in ([], ["x"], ["PARENT"], ["../y"], ["ROOT"]):
+            steps = ([b] if b else []) + ["ROOT"] + tail
+            for k in ("asstr", "filename", "extension", "isroot"):
+                c3.op(k, vfx.ps(0, *steps))
+            c3.op("asstr", vfx.ps(0, *(steps + ["PARENT"])))
+    return [c, c2, c3] + eq_cases()
 
 
 def eq_cases():
@@ -67,7 +76,7 @@ def eq_cases():
     u2 = c.fs("unit", 4)
     insts = [m0, m1, a0, a1, u0, u1, u2]
     spellings = [[], ["a"], ["a/b"], ["a", "b"], ["a/./b"], ["a/x/../b"], ["a/b", "PARENT"], ["a/b/c", "PARENT"], ["/a"], ["b"],
-                 ["a", "PARENT"], [".."], ["é"], ["é", "PARENT", "é"]]
+                 ["a", "PARENT"], [".."], ["é"], ["é", "PARENT", "é"], ["a/b", "ROOT"], ["a/b", "ROOT", "a"], ["ROOT"]]
     for i in insts:
         for j in insts:
             for s1 in spellings:
@@ -110,7 +119,7 @@ def generate(rng, tier):
         steps = []
         for _ in range(rng.randint(1, 4)):
             if rng.random() < 0.2:
-                steps.append("PARENT")
+                steps.append("PARENT" if len(steps) % 3 else "ROOT")
             else:
                 parts = [rng.choice(words) for _ in range(rng.randint(1, 6))]
                 arg = "/".join(parts)
@@ -140,6 +149,9 @@ def py_expected(optext):
             continue
         if st == "p":
             comps = comps[:-1]
+            continue
+        if st == "r":
+            comps = []
             continue
         arg = vfx.unhex(st[1:]).decode("utf-8")
         if len(arg) > 1 and arg.endswith("/"):
